@@ -303,7 +303,9 @@ HARNESSES = [
     HarnessSpec('nop_compile', h_compile, [{'prefix': 'd'}, {'prefix': 'x'}], replay=r_compile, concrete=c_compile,
                 witness_every=13),
     HarnessSpec('nop_decompile', h_decompile, replay=r_decompile, concrete=c_decompile, witness_every=13),
+    # replay: a disagreement between the un-forked VM and a fork of the stated family is a deviation of the real NOP from "remove
+    # count items, touch nothing else" - which is what r_nop_step demonstrates on the real package
     HarnessSpec('fork_step', h_fork_step, lambda t: [{'depth': d} for d in (0, 1, 2, 3) + ((5,) if t != 'quick' else ())],
-                fresh_pkg=True),
+                fresh_pkg=True, replay=r_nop_step),
     HarnessSpec('fork_compile', h_fork_compile, fresh_pkg=True),
 ]
